@@ -873,6 +873,27 @@ def h_rib_grouped(ctx, tier, famname, alen):
     return ['ok', len(out)]
 
 
+def h_cli_session(ctx):
+    """`exabgp encode` / `validate` / `decode` do not open a session: configuration.check._negotiated() builds the two OPEN
+    messages itself.  The session it hands to the encoder is the one the configuration describes (EBGP stays EBGP), and a route
+    without attributes leaves with the defaults of THAT session."""
+    from exabgp.configuration.check import _negotiated
+    local_as, peer_as = ctx.pick('as-numbers', [(65001, 65002), (65001, 65001), (70000, 65002), (65001, 80000)])
+    fam = FAMILIES['ipv4-unicast']
+    neighbor = K.neighbor_from(K.mk_conf(local_as=local_as, peer_as=peer_as, families=('ipv4 unicast',)))
+    neg = _negotiated(neighbor)[1]
+    ok = int(neg.local_as) == local_as and int(neg.peer_as) == peer_as
+    ctx.check('cli-session-is-the-configured-one', ok, sig='C01:cli:session-built-for-encode-has-other-as-numbers',
+              info={'configured': [local_as, peer_as], 'session': [int(neg.local_as), int(neg.peer_as)]})
+    ctx.cover('ebgp' if local_as != peer_as else 'ibgp')
+    facts = dict(local_as=local_as, peer_as=peer_as, ibgp=local_as == peer_as, asn4=True, addpath=False, extnh=False, msg_size=4096,
+                 local_address=_socket.inet_pton(_socket.AF_INET, LOCAL4))
+    d = decider(ctx)
+    nlri, req = mk_nlri(ctx, fam, 'quick', False)
+    nh, ip = mk_nexthop(ctx, 4)
+    return run_one(ctx, neg, facts, fam, d, 'defaults', [(nlri, req, nh, ip)], NextHop.from_packet(nh))
+
+
 # ----------------------------------------------------------------------------- units
 
 
@@ -919,6 +940,7 @@ def units(tier):
     for f, alen in (('ipv4-unicast', 16), ('ipv4-unicast', 4), ('ipv6-unicast', 16)):
         us.append(U('rib-grouped/%s/nh%d' % (f, alen), lambda ctx, f=f, n=alen: h_rib_grouped(ctx, tier, f, n),
                     must_cover=('emitted', 'same-next-hop', 'different-next-hops'), max_seconds=600, weight=80))
+    us.append(U('cli/encode-session', h_cli_session, must_cover=('ebgp', 'ibgp', 'emitted'), weight=20))
     for f in ('ipv4-unicast', 'ipv4-nlri-mpls', 'ipv4-mpls-vpn'):
         us.append(U('nh6/%s' % f, lambda ctx, f=f: h_nh6(ctx, tier, f), must_cover=('rfc8950', 'emitted'), weight=30))
     return us
